@@ -2,7 +2,10 @@
 
 package pool
 
-import "net/http"
+import (
+	"context"
+	"net/http"
+)
 
 // Verification hooks (build tag "verif"): read-only accessors and a health-state setter
 // used by the /verif correspondence harness. Not compiled into normal builds.
@@ -54,4 +57,27 @@ func (p *PeerPool) VerifLocalHolds(subscriberID string) bool {
 	defer p.localPool.mu.Unlock()
 	_, ok := p.localPool.allocations[subscriberID]
 	return ok
+}
+
+// VerifCheckPeer runs one real health check against nodeID (the body of the health-check loop).
+func (p *PeerPool) VerifCheckPeer(ctx context.Context, nodeID string) {
+	p.checkPeer(ctx, nodeID)
+}
+
+// VerifSetHealthCheckClient replaces the client used by checkPeer (the harness routes status
+// requests to in-process peer handlers or fails them on a script).
+func (p *PeerPool) VerifSetHealthCheckClient(c *http.Client) {
+	p.healthCheckClient = c
+}
+
+// VerifPeerHealth returns the recorded state of a peer (healthy, consecutive failures); a peer
+// without a record reads as (true, 0), which is how every reader of the map treats it.
+func (p *PeerPool) VerifPeerHealth(nodeID string) (bool, int) {
+	p.healthMu.RLock()
+	defer p.healthMu.RUnlock()
+	h, ok := p.peerHealthMap[nodeID]
+	if !ok {
+		return true, 0
+	}
+	return h.healthy, h.consecutiveFailures
 }
